@@ -559,6 +559,44 @@ def _const_value(prog, m, e):
         return None
 
 
+
+def _model_cells(got, dim, spec, xc, yc, P):
+    """([(dim, coords, dim, value, expected index, computed)] on evenly spaced models, same on an irregular model) for the
+    observer-cell term `got`; None when the term cannot be evaluated on the models"""
+    from ..wterm import eval_term, key
+    models = [('x', [10, 20, 30, 40, 50], True), ('x', [50, 40, 30, 20, 10], True), ('x', [0, 1, 2, 3, 4, 5, 6], True),
+              ('x', [1, 2, 4, 8, 16], False)]
+    ymodels = [[100, 75, 50, 25], [25, 50, 75, 100], [-3, -2, -1, 0, 1, 2], [32, 16, 8, 4]]
+    bad_even, bad_uneven = [], []
+    for (_, xs, even), ys in zip(models, ymodels):
+        cs = ys if dim == 'y' else xs
+        probes = sorted(set(cs) | {(3 * a_ + b_) / 4 for a_, b_ in zip(cs, cs[1:])} | {(a_ + 3 * b_) / 4 for a_, b_ in zip(cs, cs[1:])})
+        for v in probes:
+            other = (xs if dim == 'y' else ys)[1]
+            bound = {}
+            for nm_, arr in (('xc', xs), ('yc', ys)):
+                for text, val in (('%s.min()', min(arr)), ('%s.max()', max(arr)), ('%s[0]', arr[0]), ('%s[-1]', arr[-1]), ('%s[1]', arr[1]),
+                                  ('%s.size', len(arr)), ('%s.shape[0]', len(arr)), ('len(%s)', len(arr)), ('np.min(%s)', min(arr)),
+                                  ('np.max(%s)', max(arr)), ('np.nanmin(%s)', min(arr)), ('np.nanmax(%s)', max(arr))):
+                    bound[key(spec(text % nm_, xc=xc, yc=yc))] = Fraction(val)
+            for text, val in (('raster.shape[0]', len(ys)), ('raster.shape[1]', len(xs)), ('raster.sizes["y"]', len(ys)), ('raster.sizes["x"]', len(xs)),
+                              ('len(raster.y)', len(ys)), ('len(raster.x)', len(xs)), ('raster.values.shape[0]', len(ys)),
+                              ('raster.values.shape[1]', len(xs)), ('raster.data.shape[0]', len(ys)), ('raster.data.shape[1]', len(xs))):
+                try:
+                    bound[key(spec(text))] = Fraction(val)
+                except Exception:      # noqa - a spelling the term builder does not take is simply not bound
+                    pass
+            env = {'x': Fraction(v) if dim == 'x' else Fraction(other), 'y': Fraction(v) if dim == 'y' else Fraction(other), '__terms__': bound}
+            try:
+                r = eval_term(got, env)
+            except (ValueError, ZeroDivisionError, KeyError, TypeError):
+                return None
+            want = min(range(len(cs)), key=lambda i_: abs(cs[i_] - v))
+            if r != want:
+                (bad_even if even else bad_uneven).append((dim, cs, dim, v, want, r))
+    return bad_even, bad_uneven
+
+
 def check_wrapper(prog, rep, m, entry):
     """T6 / T7 / T8 / T10 on the wrapper terms of `_viewshed_cpu` (wterm.py): what the sweep kernel receives, as terms
     over the wrapper's parameters - local names, tuple assignments, keyword arguments and helper functions do not matter"""
@@ -640,6 +678,18 @@ def check_wrapper(prog, rep, m, entry):
         sw_ = cell(other, xc if dim == 'y' else yc)
         cells[prm] = want
         ok, why = verdict(b.get(prm), want, sw_)
+        if ok is None and b.get(prm) is not None:
+            # the index computed another way: evaluated on model rasters - coordinates ascending and descending (rows of a
+            # north-up raster run from the largest y to the smallest), observers on and between cell centres, the two axes
+            # of different lengths.  A wrong cell on an evenly spaced model is a violation; agreement on the even models only
+            # (an irregular one differs from nearest-coordinate selection) stays undecided.
+            mv = _model_cells(b.get(prm), dim, spec, xc, yc, P)
+            if mv is not None:
+                bad_even, bad_uneven = mv
+                if bad_even:
+                    ok, why = False, 'on a raster with %s coordinates %s an observer at %s=%s stands on index %s, the formula gives %s' % bad_even[0]
+                elif not bad_uneven:
+                    ok, why = True, 'agrees with nearest-coordinate selection on every model raster'
         rep.add('T8', cpu, entry, '%s = index of the nearest %s coordinate' % (prm, dim), line, ok,
                 'the observer stands on the cell whose centre is nearest (row from y, column from x); ' + why)
     # T10: observer elevation widened before the addition; float64 terrain; target height
